@@ -6,6 +6,7 @@
          a Slice (one level is unwrapped, offsets added)
   R15.5  range construction: the Range literal is built only after the zero-step and emptiness tests
   R15.6  value_to_idx has its three error exits (negative beyond start, not representable, beyond length)
+  R15.7  positions are ordered only after normalisation: no ordering comparison between two raw index arguments
 """
 import re
 from .lib import mirq, astq, immut
@@ -121,3 +122,51 @@ def run(ctx):
         if not ok:
             r6.fail('value_to_idx/shape', mirq.site(b, 0), 'value_to_idx lost one of its cases (negative index, infinite sequence, unrepresentable, out of range)')
     r6.need(1)
+
+    # ---------------- R15.7
+    r7 = ctx.rule('R15.7', 'positions are ordered after normalisation: no ordering comparison between raw index arguments')
+    ORDER = re.compile(r'(PartialOrd::(lt|le|gt|ge|partial_cmp)|Ord::(cmp|min|max))$')
+    for b in mir.bodies:
+        if b.nid.startswith(SEQ + '::'):
+            continue
+        sites = [(bb, t) for bb, t in b.calls() if strip_generics(t.get('callee') or '') == SEQ + '::value_to_idx']
+        if not sites:
+            continue
+        raw = set()
+        for bb, t in sites:
+            l = op_local(t['args'][1])
+            if l is not None:
+                raw |= {x for x in mirq.backslice(b, [l]) if 'LazyBigint' in (b.local_ty(x) or '')}
+
+        def root(op):
+            p = op_place(op)
+            if p is None:
+                return None
+            cur = p['l']
+            for _ in range(8):
+                if cur in raw:
+                    return cur
+                ds = b.defs().get(cur, [])
+                if len(ds) != 1 or ds[0][0] != 'stmt':
+                    return None
+                rv = ds[0][3]['rv']
+                if rv['k'] in ('ref', 'copyderef'):
+                    cur = rv['place']['l']
+                elif rv['k'] == 'use' and op_place(rv['op']) is not None:
+                    cur = op_place(rv['op'])['l']
+                else:
+                    return None
+            return None
+        cmps = []
+        for bb, t in b.calls():
+            nm = strip_generics(t.get('decl') or t.get('callee') or '')
+            if not ORDER.search(nm) or len(t['args']) != 2:
+                continue
+            ra, rb = root(t['args'][0]), root(t['args'][1])
+            if ra is not None and rb is not None:
+                cmps.append((bb, nm.split('::')[-1]))
+        ok = not cmps
+        r7.inst({'native': b.nid, 'raw_index_arguments_normalised': len(sites), 'ordering_comparisons_between_raw_indices': len(cmps)}, ok=ok, kind=b.nid)
+        for bb, op in cmps:
+            r7.fail('%s/raw-order/%s' % (b.nid, op), mirq.site(b, bb), 'two index arguments are ordered (%s) before value_to_idx normalises them: a negative index denotes a position from the end, so the order of the raw numbers is not the order of the positions' % op)
+    r7.need(5)
